@@ -119,6 +119,7 @@ func ruleC16(w *World, r *Report) {
 	r.Explanation = "Every builder path of P4rtTranslator that returns an entry without error is enumerated on the SSA CFG and checked against the P4Info parsed from conf/p4/bin/p4info.txt on this run: R16.1 TableId names a table; R16.2 every with*MatchField names a field of that table with the helper's match kind, none twice; R16.3 the Go type / constant of each value fits the declared bit width (slice_id, tc, qfi rely on the bounds the property itself states, recorded as assumptions), LPM prefix ≤ width; R16.4 ActionId is in the table's action_refs and not default-only; R16.5 withActionParam names = the action's declared parameter set; " +
 		"R16.6 tables with ternary/range fields get a priority whose minimum under verifyPDR's guard is ≥ 1 (interval argument), others 0; R16.7 meter/counter indices come from pools filled by loops bounded by the P4Info size of the same array, slice/TC index bound ≤ slice meter size, pre/post counters equal-sized; R16.8 every constant and id→name map entry of internal/p4constants agrees with the P4Info and every P4Info object of a generated kind has its constant; R16.9 the generator ranges over maps only to collect keys that are sorted before use, and reads no clock/random/environment."
 	r.Explanation += " R16.8 converter bytes reach match fields and parameters unchanged (leading zeros may be stripped); R16.9 the value passed as tc is the configured class itself (QFIToTC[qfi] / DefaultTC), so the property's bound tc ≤ 3 applies to it."
+	r.Explanation += " R16.9 (cont.) the sliceID argument of every builder is the configured slice; R16.10 the generator's output file is written with truncation."
 	r.NotDecided = "values bounded only by the property's assumptions (QFI ≤ 63, slice ≤ 15, TC ≤ 3) are assumed, not proved; what the switch does with valid writes"
 	info := loadP4Info(w.Repo, P)
 	assumptions := map[string]int64{"slice_id": 15, "tc": 3, "qfi": 63}
